@@ -31,7 +31,7 @@ class C02:
         if rng.random() < 0.5:
             qs.append(rng.choice(ts) + rng.choice([-1, 1]))
         c["qts"] = qs
-        nodes = sorted({x for op in c["ops"] for x in ([op[1], op[2]] if op[0] == "add" else ([op[1]] if op[0] in ("node", "attr") else (op[1] if op[0] != "addfrom" else [y for p in op[1] for y in p])))})
+        nodes = gen.nodes_of(c["ops"])
         nb = []
         for _ in range(2):
             k = rng.choice([0, 1, 1, 2, 3]); k = min(k, len(nodes))
